@@ -126,6 +126,18 @@ P = {
          'predicate of K6, reported as KNOWN-FINDING incl. its silent optional-input variant); values/forcing across chains rest on the C01/C07 machine theorems',
     technique='Lean 4 proof (registry invariant) + proved counterexample + differential correspondence',
     ref='§4 C13'),
+ 'C18': dict(
+    text='Lean 4 over TCV.RunRec (handler attach/truncate/emit/detach, run-info save), for every sequence of runs in one process '
+         '(successful, failing, retried, forced; any tasks, also objects of different chains sharing logger name and location): no file '
+         'handler stays attached between runs, the log at a location is exactly the lines of the last run there (nothing from other runs or '
+         'tasks), run info is that of the last successful run with its records in order; the pre-repair (leaky) protocol is refuted on the '
+         'fail-then-retry witness. Correspondence: histories with logging tasks, failures, retries, forcing, chains sharing names; which runs '
+         'happen/succeed is observed on the real code, log and run_info of every task after every operation are compared with the model; '
+         'parameter representations in run info come from the Lean key model.',
+    note='timestamps/user/YAML formatting not compared; runs are atomic blocks in the model (nested runs use other logger names); after a failed '
+         'forced recomputation the log describes the failed run while data and run info are the earlier successful run\'s — observed, not judged',
+    technique='Lean 4 proof (invariant + induction over run sequences) + proved counterexample + differential correspondence',
+    ref='§4 C18'),
 }
 
 checks, na = [], []
